@@ -439,6 +439,12 @@ CORPUS = [
     (["grand sum = 10", "grand = 7", "grand sum = 3", "grand sum", "grand", "grand = 1", "grand sum", "GRAND SUM = 4 + grand",
       "grand sum - grand"], None),
     (["net = 5", "net times = 3", "net times = net times + net", "net", "net times", "net = net times * 2", "net"], None),
+    # a name whose leading word recurs inside the name, used where the occurrence starts inside a failed partial match
+    (["very very big = 1000", "very very very big + 1", "very very big * 2", "very big = 3", "very very very big + very big"], None),
+    (["tic tac tic toe = 7", "tic tac tic tac tic toe * 2", "tic tic tac tic toe + 1"], None),
+    # names that embed a month word (codec, marching, trojan) next to the month word bound on its own
+    (["codec = 5", "dec = 7", "codec", "codec + dec"], None), (["marching = 10", "march = 1", "marching + 1"], None),
+    (["trojan = 7", "jan = 2", "2 * trojan"], None),
     # words that merely CONTAIN an operator word or resemble a keyword are ordinary name words
     (["cost = 3", "cost summary = 40", "cost + 1", "cost summary * 2"], None),
     (["start = 2", "start timestamp = 100", "start timestamp + start", "rent addition = 5", "rent addition * 2"], None),
@@ -468,6 +474,7 @@ def generate(rng, tier):
         kinds = kinds or ["num"] * len(lines)
         cases.append(make_case(rng, lines, kinds, "corpus"))
         cases.append(make_case(rng, lines, kinds, "session-corpus"))
+    cases.extend(equiv_cases())
     while len(cases) < n:
         collide = rng.random() < 0.08
         lines, kinds = gen_program(rng, collide)
@@ -525,7 +532,45 @@ def first_failure(c, rec):
     return None
 
 
+EQUIV = [
+    # (program with names, the same last line with the bound values written out): the LAST lines evaluate alike, whatever
+    # kind the bound value has - the name is replaced by its value before units, rules and signs are looked at
+    (["p = 10%", "200 + -p"], "200 + -(10%)"), (["p = 10%", "200 - -p"], "200 - -(10%)"), (["p = 10%", "p of 50"], "10% of 50"),
+    (["p = 10%", "p on 50"], "10% on 50"), (["p = 10%", "p off 50"], "10% off 50"), (["p = 10%", "5 is p of what"], "5 is 10% of what"),
+    (["price = 10 eur", "$100 + -price"], "$100 + -(10 eur)"), (["d = 2 hours", "11:30 + +d"], "11:30 + 2 hours"),
+    (["x = 10", "x kg"], "10 kg"), (["x = 10", "x kg to g"], "10 kg to g"), (["x = 10", "x m + 5 m"], "10 m + 5 m"),
+    (["m = 5", "10 m"], "10 5"), (["kb = 3", "2 kb + 1"], "2 3 + 1"), (["t = 15:30", "12/12/2020 at t"], "12/12/2020 at 15:30"),
+    (["t = 15:30", "x = 12/12/2020 at t", "x as unix"], "12/12/2020 at 15:30 as unix"), (["n = 7", "12/12/2020 at n"], "12/12/2020 at 7"),
+    (["x = 20 usd", "x is 10% of what"], "20 usd is 10% of what"), (["share = 20 is what % of 80", "share of 200"], "25% of 200"),
+    (["k = 3 km", "k + 500 m"], "3 km + 500 m"), (["z = 12:30 EST", "z to CET"], "12:30 EST to CET"),
+]
+
+
+def equiv_cases():
+    out = []
+    for lines, literal in EQUIV:
+        out.append({"ops": [{"op": "exec", "lang": "en", "text": "\n".join(lines)}, {"op": "exec", "lang": "en", "text": literal}],
+                    "meta": {"kind": "equiv", "lines": lines, "kinds": [], "literal": literal}})
+    return out
+
+
+def equiv_failure(c, rec):
+    if rec is None or rec.get("hang") or rec.get("crash") or any("panic" in o for o in rec["obs"]):
+        return "evaluation panicked or hung"
+    a, b = rec["obs"][0].get("lines"), rec["obs"][1].get("lines")
+    if not a or not b or a[-1] is None or b[-1] is None:
+        return "no result: %r / %r" % (a, b)
+    la, lb = a[-1], b[-1]
+    if "err" in lb:
+        return None                      # the written-out line itself does not evaluate: nothing is claimed
+    if "err" in la or la.get("out") != lb.get("out") or la.get("ast") != lb.get("ast"):
+        return "%r gives %r but with the values written out, %r, it gives %r" % (c["meta"]["lines"][-1], la, c["meta"]["literal"], lb)
+    return None
+
+
 def spec_check(c, rec, header):
+    if c["meta"].get("kind") == "equiv":
+        return equiv_failure(c, rec)
     f = first_failure(c, rec)
     if f is None:
         return None
@@ -533,6 +578,8 @@ def spec_check(c, rec, header):
 
 
 def nontrivial(c, rec):
+    if c["meta"].get("kind") == "equiv":
+        return equiv_failure(c, rec) is None
     obs = observed_lines(rec)
     if not obs:
         return False
